@@ -108,7 +108,6 @@ static int prepare_peer_socket(int fd)
 {
 	if (set_fd_non_blocking(fd) < 0) {
 		log_err("Could not set socket to nonblocking '%s'!\n", strerror(errno));
-		close(fd);
 		return -1;
 	}
 
@@ -129,7 +128,6 @@ static int prepare_peer_socket(int fd)
 		}
 		if (configure_keepalive(fd) < 0) {
 			log_err("Could not configure keepalive '%s'!\n", strerror(errno));
-			close(fd);
 			return -1;
 		}
 	}
@@ -258,10 +256,27 @@ static enum eventloop_return accept_common(struct io_event *ev, void (*peer_func
 		socklen_t addrlen = sizeof(addr);
 		int peer_fd = accept(ev->sock, (struct sockaddr *)&addr, &addrlen);
 		if (peer_fd == -1) {
-			if ((errno == EAGAIN) || (errno == EWOULDBLOCK)) {
-				return EL_CONTINUE_LOOP;
-			} else {
+			switch (errno) {
+			case EBADF:
+			case EINVAL:
+			case ENOTSOCK:
+			case EOPNOTSUPP:
+			case EFAULT:
+				/* The listening socket itself is unusable. */
 				return EL_ABORT_LOOP;
+
+			case ECONNABORTED:
+			case EINTR:
+				/* A single connection attempt failed, look for the next one. */
+				continue;
+
+			default:
+				/*
+				 * EAGAIN/EWOULDBLOCK or a transient lack of
+				 * resources (EMFILE, ENFILE, ENOBUFS, ENOMEM,
+				 * EPROTO, EPERM). Keep serving.
+				 */
+				return EL_CONTINUE_LOOP;
 			}
 		} else {
 			if (likely(peer_function != NULL)) {
